@@ -1545,6 +1545,50 @@ fn direct_entry_points(ctx: &mut Ctx, w: &[u8; 32]) {
             ctx.probe(k);
         }
     }
+    // heterogeneous receiver node: the minimal build (32-bit fiat fields, self-contained curve) gets the
+    // same datagram; it must reach the reference verdict and re-encode to the same 32 bytes
+    {
+        let wm = *w;
+        ctx.out.steps += 1;
+        let r = catch_unwind(AssertUnwindSafe(move || {
+            decaf377_min::Encoding(wm)
+                .vartime_decompress()
+                .map(|e| e.vartime_compress().0)
+        }));
+        match (r, &expect) {
+            (Err(p), _) => ctx.viol(
+                "C02",
+                "panic",
+                format!("entry=minimal_build::vartime_decompress class={}", class_of(&expect)),
+                format!("decoding {} panicked: {}", hex(w), panic_msg(p)),
+            ),
+            (Ok(Ok(b)), Ok(_)) => {
+                if b != *w {
+                    ctx.viol(
+                        "C02",
+                        "decode_value",
+                        "entry=minimal_build::vartime_decompress class=valid".into(),
+                        format!("minimal build decodes {} to an element that re-encodes to {}", hex(w), hex(&b)),
+                    );
+                } else {
+                    ctx.probe("minimal_build_node_agreed");
+                }
+            }
+            (Ok(Ok(_)), Err(r)) => ctx.viol(
+                "C02",
+                "accepts_invalid",
+                format!("entry=minimal_build::vartime_decompress class={}", r.name()),
+                format!("minimal build accepted {} although the specification rejects ({})", hex(w), r.name()),
+            ),
+            (Ok(Err(_)), Ok(_)) => ctx.viol(
+                "C02",
+                "rejects_valid",
+                "entry=minimal_build::vartime_decompress class=valid".into(),
+                format!("minimal build rejected the canonical encoding {}", hex(w)),
+            ),
+            (Ok(Err(_)), Err(_)) => ctx.probe("minimal_build_node_agreed"),
+        }
+    }
     let w2 = *w;
     #[allow(deprecated)]
     let calls: Vec<(&'static str, Box<dyn Fn() -> Result<Element, EncodingError>>)> = vec![
@@ -1850,8 +1894,72 @@ fn receive_all(ctx: &mut Ctx, run: &IoRun, segs: &[Seg]) -> Vec<Received> {
     received
 }
 
+/// 32-bit backend (minimal build) on the same bytes: checked parse, reduction and re-serialisation.
+fn min_backend(ctx: &mut Ctx, w: Which, bytes: &[u8]) {
+    let f = wire::fld(w);
+    let x = Fld::int_le(bytes);
+    let b = bytes.to_vec();
+    let got = catch_unwind(AssertUnwindSafe(move || -> (Option<Vec<u8>>, Vec<u8>) {
+        use decaf377_min as m;
+        match w {
+            Which::Fq => {
+                let a = <[u8; 32]>::try_from(&b[..]).unwrap();
+                (
+                    m::Fq::from_bytes_checked(&a).ok().map(|v| v.to_bytes_le().to_vec()),
+                    m::Fq::from_le_bytes_mod_order(&b).to_bytes_le().to_vec(),
+                )
+            }
+            Which::Fr => {
+                let a = <[u8; 32]>::try_from(&b[..]).unwrap();
+                (
+                    m::Fr::from_bytes_checked(&a).ok().map(|v| v.to_bytes_le().to_vec()),
+                    m::Fr::from_le_bytes_mod_order(&b).to_bytes_le().to_vec(),
+                )
+            }
+            Which::Fp => {
+                let a = <[u8; 48]>::try_from(&b[..]).unwrap();
+                (
+                    m::Fp::from_bytes_checked(&a).ok().map(|v| v.to_bytes_le().to_vec()),
+                    m::Fp::from_le_bytes_mod_order(&b).to_bytes_le().to_vec(),
+                )
+            }
+        }
+    }));
+    ctx.out.steps += 1;
+    match got {
+        Err(p) => ctx.viol(
+            "C11",
+            "panic",
+            format!("field={:?} backend=u32 op=parse", w),
+            format!("{}: {}", hex(bytes), panic_msg(p)),
+        ),
+        Ok((checked, reduced)) => {
+            let want_checked = if x < f.p { Some(f.to_le(&x)) } else { None };
+            if checked != want_checked {
+                ctx.viol(
+                    "C11",
+                    "checked_parse",
+                    format!("field={:?} backend=u32 canonical={}", w, x < f.p),
+                    format!("32-bit backend from_bytes_checked({}) = {:?}", hex(bytes), checked.map(|v| hex(&v))),
+                );
+            }
+            if reduced != f.to_le(&(&x % &f.p)) {
+                ctx.viol(
+                    "C11",
+                    "source_value",
+                    format!("field={:?} backend=u32 source=from_le_bytes_mod_order", w),
+                    format!("32-bit backend reduces {} to {}", hex(bytes), hex(&reduced)),
+                );
+            } else {
+                ctx.probe("u32_backend_node_agreed");
+            }
+        }
+    }
+}
+
 /// `from_bytes_checked` accepts exactly the integers below p (C11).
 fn checked_parse(ctx: &mut Ctx, w: Which, bytes: &[u8]) {
+    min_backend(ctx, w, bytes);
     let f = wire::fld(w);
     let x = Fld::int_le(bytes);
     let want = x < f.p;
